@@ -366,13 +366,16 @@ LlcStep(e, a) == IF e.len < 3 THEN [adv |-> 0, acc |-> Rej("short", a.val)]
    response that is stored in the DNS table, "find" a DNSFind of its name.  The reference keeps the
    cache and table contents; every call must return (C08) and the outcomes are listed in val.out. *)
 McKeys == {<<m, i>> : m \in {1, 2}, i \in {1, 2}}
-McElems == {[k |-> "mdns", m |-> key[1], i |-> key[2]] : key \in IF Alpha = "wide" THEN McKeys ELSE {<<1, 1>>, <<2, 1>>}}
+\* "bad" is a malformed response (truncated record) of the same station and transaction id: it must be rejected
+\* and must leave no trace: the cache changes only when a response was processed successfully.
+McElems == {[k |-> x, m |-> key[1], i |-> key[2]] : x \in {"mdns", "bad"}, key \in IF Alpha = "wide" THEN McKeys ELSE {<<1, 1>>, <<2, 1>>}}
       \cup {[k |-> x, m |-> 0, i |-> 0] : x \in {"age", "dns", "find"}}
 McAcc0 == [cache |-> [key \in McKeys |-> "none"], table |-> FALSE, out |-> <<>>]
 McStep(e, v) ==
   CASE e.k = "mdns" ->
          IF v.cache[<<e.m, e.i>>] = "fresh" THEN [v EXCEPT !.out = Append(@, "cached")]
          ELSE [v EXCEPT !.cache[<<e.m, e.i>>] = "fresh", !.out = Append(@, "names")]   \* expired entries are dropped and re-read
+    [] e.k = "bad" -> [v EXCEPT !.out = Append(@, IF v.cache[<<e.m, e.i>>] = "fresh" THEN "cached" ELSE "error")]
     [] e.k = "age" -> [v EXCEPT !.cache = [key \in McKeys |-> IF @[key] = "fresh" THEN "expired" ELSE @[key]], !.out = Append(@, "-")]
     [] e.k = "dns" -> [v EXCEPT !.out = Append(@, IF v.table THEN "known" ELSE "stored"), !.table = TRUE]
     [] OTHER -> [v EXCEPT !.out = Append(@, IF v.table THEN "found" ELSE "empty")]
